@@ -212,10 +212,7 @@ Inductive add_shape (l : match_list) (m : mtch) (r : bool) : match_list * bool -
     add_shape l m r (l1 ++ m :: l2, true)
 | AS_upd l1 x l2 e :
     l = l1 ++ x :: l2 -> m_start x = m_start m ->
-    e = (if r then match l2 with
-                   | [] => m_end m                       (* tail arm: overwritten, not compared *)
-                   | _ => N.max (m_end x) (m_end m)      (* binary-search arm: replaced if longer *)
-                   end
+    e = (if r then N.max (m_end x) (m_end m)      (* replaced if longer, in both arms *)
          else m_end x) ->
     add_shape l m r (l1 ++ set_end x e :: l2, false).
 
@@ -240,9 +237,12 @@ Proof.
         apply N.eqb_eq in E2.
         replace (length (l' ++ [x]) - 1)%nat with (length l').
         2:{ rewrite app_length. cbn [length]. lia. }
-        rewrite map_at_app.
-        destruct r.
-        -- apply (AS_upd _ m true l' x [] (m_end m)); [reflexivity|congruence|reflexivity].
+        destruct r; cbn [andb].
+        -- destruct (m_end x <? m_end m) eqn:E4.
+           ++ apply N.ltb_lt in E4. rewrite map_at_app.
+              apply (AS_upd _ m true l' x [] (m_end m)); [reflexivity|congruence|]. rewrite N.max_r by lia. reflexivity.
+           ++ apply N.ltb_ge in E4. rewrite <- (set_end_same x) at 2.
+              apply (AS_upd _ m true l' x [] (m_end x)); [reflexivity|congruence|]. rewrite N.max_l by lia. reflexivity.
         -- rewrite <- (set_end_same x) at 2.
            apply (AS_upd _ m false l' x [] (m_end x)); [reflexivity|congruence|reflexivity].
       * (* somewhere before the last one: binary search *)
@@ -268,8 +268,7 @@ Proof.
               2:{ destruct (m_end y <? m_end m) eqn:E4.
                   - apply N.ltb_lt in E4. rewrite N.max_r by lia. reflexivity.
                   - apply N.ltb_ge in E4. rewrite N.max_l by lia. apply set_end_same. }
-              apply (AS_upd _ m true l1 y l2); [reflexivity|exact H5|].
-              destruct l2; [congruence|reflexivity].
+              apply (AS_upd _ m true l1 y l2); [reflexivity|exact H5|reflexivity].
            ++ rewrite <- (set_end_same y) at 2.
               apply (AS_upd _ m false l1 y l2); [reflexivity|exact H5|reflexivity].
         -- (* Err(index) *)
@@ -373,35 +372,33 @@ Proof.
     + subst y. rewrite set_end_start, set_end_end.
       assert (Hx : In x (l1 ++ x :: l2)) by (apply in_app_iff; right; left; reflexivity).
       destruct r.
-      * destruct l2.
+      * destruct (N.max_spec (m_end x) (m_end m)) as [[_ Hm]|[_ Hm]]; rewrite Hm in H3.
         -- left. split; [exact H2|exact H3].
-        -- destruct (N.max_spec (m_end x) (m_end m)) as [[_ Hm]|[_ Hm]]; rewrite Hm in H3.
-           ++ left. split; [exact H2|exact H3].
-           ++ right. exists x. split; [exact Hx|]. split; [reflexivity|congruence].
+        -- right. exists x. split; [exact Hx|]. split; [reflexivity|congruence].
       * right. exists x. split; [exact Hx|]. split; [reflexivity|congruence].
     + right. exists y. rewrite in_app_iff. cbn [In]. tauto.
 Qed.
 
-(* with replace_if_longer = true: the new end, or the max of the old and new end *)
+(* with replace_if_longer = true: a new start gets the new end, a stored one the
+   maximum of the stored and the new end (in both arms since commit a09b6a08) *)
 Lemma add_true_result_end : forall l m y, sorted l -> In y (fst (ml_add l m true)) ->
   m_start y = m_start m ->
-  m_end y = m_end m \/
+  (~ In (m_start m) (starts l) /\ m_end y = m_end m) \/
   (exists x, In x l /\ m_start x = m_start m /\ m_end y = N.max (m_end x) (m_end m)).
 Proof.
   intros l m y Hs Hin He.
   destruct (add_shape_ok l m true Hs) as [l1 l2 H1 H2 H3|l1 x l2 e H1 H2 H3]; cbn [fst] in Hin; subst l.
   - apply in_app_iff in Hin. cbn [In] in Hin. destruct Hin as [H|[H|H]].
     + pose proof (all_lt_In _ _ _ H2 H). lia.
-    + subst y. left. reflexivity.
+    + subst y. left. split; [|reflexivity]. rewrite starts_app. intro Hi. apply in_app_iff in Hi.
+      destruct Hi as [Hi|Hi]; [exact (all_lt_not_In _ _ H2 Hi)|exact (all_gt_not_In _ _ H3 Hi)].
     + pose proof (all_gt_In _ _ _ H3 H). lia.
   - apply sorted_mid in Hs. destruct Hs as [_ [_ [Hs1 Hs2]]].
     apply in_app_iff in Hin. cbn [In] in Hin. destruct Hin as [H|[H|H]].
     + pose proof (all_lt_In _ _ _ Hs1 H). lia.
     + subst y. rewrite set_end_end.
       assert (Hx : In x (l1 ++ x :: l2)) by (apply in_app_iff; right; left; reflexivity).
-      destruct l2.
-      * left. exact H3.
-      * right. exists x. split; [exact Hx|]. split; [exact H2|exact H3].
+      right. exists x. split; [exact Hx|]. split; [exact H2|exact H3].
     + pose proof (all_gt_In _ _ _ Hs2 H). lia.
 Qed.
 
@@ -793,63 +790,38 @@ Qed.
 Definition add_keeps_longest : Prop :=
   forall ms x, In x (adds_true ms) -> m_end x = max_list (ends_for (m_start x) ms).
 
-(* FALSE for the code as written: when the start equals the start of the LAST match the
-   end is overwritten without comparing.  add(1..15, true); add(1..10, true) stores 1..10. *)
-Theorem add_keeps_longest_witness :
-  exists ms x, In x (adds_true ms) /\ m_end x <> max_list (ends_for (m_start x) ms).
+(* TRUE since commit a09b6a08 (both arms compare; before, the arm for the LAST match of
+   the list overwrote the end without comparing and the property was refuted by
+   add(1..15, true); add(1..10, true)). *)
+Theorem add_keeps_longest_holds : add_keeps_longest.
 Proof.
-  exists [mkM 1 15 None; mkM 1 10 None], (mkM 1 10 None). split.
-  - vm_compute. left. reflexivity.
-  - vm_compute. discriminate.
+  intros ms. induction ms as [|m ms IH] using rev_ind; intros x Hin; [destruct Hin|].
+  rewrite adds_true_snoc in Hin. rewrite ends_for_snoc.
+  destruct (N.eq_dec (m_start x) (m_start m)) as [He|Hne].
+  - rewrite He, N.eqb_refl, max_list_snoc.
+    destruct (add_true_result_end _ m x (adds_true_sorted ms) Hin He) as [[Hn H1]|[x0 [Hx0 [Hs0 H1]]]].
+    + rewrite adds_true_starts in Hn. rewrite (ends_for_absent _ _ Hn). unfold max_list. cbn [fold_right]. lia.
+    + pose proof (IH x0 Hx0) as H2. rewrite Hs0 in H2. rewrite <- H2. exact H1.
+  - replace (m_start m =? m_start x) with false by (symmetry; apply N.eqb_neq; congruence).
+    rewrite app_nil_r. apply IH.
+    apply (add_no_other_matches_created _ m true x (adds_true_sorted ms) Hin Hne).
 Qed.
 
-Theorem add_keeps_longest_refuted : ~ add_keeps_longest.
-Proof.
-  intros H. destruct add_keeps_longest_witness as [ms [x [H1 H2]]].
-  apply H2. apply H. exact H1.
-Qed.
-
-(* the same sequence through the binary-search arm keeps the longer one: the two arms disagree *)
-Example add_arms_disagree :
-  adds_true [mkM 1 15 None; mkM 1 10 None] = [mkM 1 10 None] /\
+(* the sequence that used to show the two arms disagreeing *)
+Example add_arms_agree :
+  adds_true [mkM 1 15 None; mkM 1 10 None] = [mkM 1 15 None] /\
   adds_true [mkM 1 15 None; mkM 2 3 None; mkM 1 10 None] = [mkM 1 15 None; mkM 2 3 None].
 Proof. split; reflexivity. Qed.
 
-(* Guard: every add (s, e) finds, if anything, a stored match at s whose end is <= e. *)
+(* (kept from the time the property needed a guard) *)
 Definition nondecreasing_end (ms : list mtch) : Prop :=
   forall ms1 m ms2 x, ms = ms1 ++ m :: ms2 ->
     In x (adds_true ms1) -> m_start x = m_start m -> m_end x <= m_end m.
 
-Lemma nondecreasing_end_prefix ms m : nondecreasing_end (ms ++ [m]) -> nondecreasing_end ms.
-Proof.
-  intros H ms1 m' ms2 x Heq. apply (H ms1 m' (ms2 ++ [m]) x).
-  rewrite Heq, <- app_assoc. reflexivity.
-Qed.
-
 Theorem add_keeps_longest_if_nondecreasing_end : forall ms x,
   nondecreasing_end ms -> In x (adds_true ms) ->
   m_end x = max_list (ends_for (m_start x) ms).
-Proof.
-  induction ms as [|m ms IH] using rev_ind; intros x Hnd Hin; [destruct Hin|].
-  pose proof (nondecreasing_end_prefix _ _ Hnd) as Hnd'.
-  assert (Hlast : forall x0, In x0 (adds_true ms) -> m_start x0 = m_start m -> m_end x0 <= m_end m).
-  { intros x0. apply (Hnd ms m [] x0). reflexivity. }
-  rewrite adds_true_snoc in Hin. rewrite ends_for_snoc.
-  destruct (N.eq_dec (m_start x) (m_start m)) as [He|Hne].
-  - rewrite He, N.eqb_refl, max_list_snoc.
-    assert (Hmax : max_list (ends_for (m_start m) ms) <= m_end m).
-    { destruct (in_dec N.eq_dec (m_start m) (starts (adds_true ms))) as [Hi|Hi].
-      - unfold starts in Hi. apply in_map_iff in Hi. destruct Hi as [x0 [Hx0 Hi]].
-        pose proof (IH x0 Hnd' Hi) as H1. rewrite Hx0 in H1. rewrite <- H1.
-        apply Hlast; assumption.
-      - rewrite adds_true_starts in Hi. rewrite (ends_for_absent _ _ Hi). unfold max_list. cbn [fold_right]. lia. }
-    destruct (add_true_result_end _ m x (adds_true_sorted ms) Hin He) as [H1|[x0 [Hx0 [Hs0 H1]]]].
-    + lia.
-    + pose proof (Hlast x0 Hx0 Hs0). lia.
-  - replace (m_start m =? m_start x) with false by (symmetry; apply N.eqb_neq; congruence).
-    rewrite app_nil_r. apply IH; [exact Hnd'|].
-    apply (add_no_other_matches_created _ m true x (adds_true_sorted ms) Hin Hne).
-Qed.
+Proof. intros ms x _ Hin. apply add_keeps_longest_holds. exact Hin. Qed.
 
 (* Unconditionally (either value of replace_if_longer at each step): the end stored for a
    start is one of the ends that were added for that start. *)
